@@ -32,6 +32,7 @@ type RoleReq struct {
 	Resave bool            `json:"resave"` // resume: save again right after the load, report the bytes
 	KeepTrace bool         `json:"keep_trace"`
 	Observers []string     `json:"observers,omitempty"` // optional observer set names (C33)
+	Again     bool         `json:"again,omitempty"`     // ref: run the assembly a second time in this same process (after timing.ResetIDGenerator) and report that run instead
 }
 
 // RoleRes is the answer.
@@ -102,10 +103,20 @@ func runRole(req RoleReq) (res RoleRes) {
 	if f == nil {
 		return RoleRes{Err: "unknown assembly kind " + req.Kind}
 	}
+	limit := timing.VTimeInPicoSec(req.Limit)
+	if req.Role == "ref" && req.Again {
+		// first execution in this process, result discarded; then a new ID generator, as a program that
+		// runs several simulations in one process would do
+		ResetIDs()
+		first := f(req.Cfg, req.Dir, req.Observers)
+		first.Start()
+		first.Engine().RunUntil(limit)
+		first.Close()
+		timing.ResetIDGenerator()
+	}
 	ResetIDs()
 	a := f(req.Cfg, req.Dir, req.Observers)
 	defer a.Close()
-	limit := timing.VTimeInPicoSec(req.Limit)
 	switch req.Role {
 	case "ref":
 		tr := AttachEventTrace(a.Engine(), req.KeepTrace)
